@@ -61,6 +61,7 @@ class CallState:
         self.s_end_sent = False
         self.s_rst_sent = False
         self.exit_trailers = None  # None | 'ok' | 'nonok'   (trailers written while exiting)
+        self.nonok_sent = False    # non-OK trailers were written (explicitly or while exiting)
         self.sh_at_exit = None     # server h2 letter right after the handler was released
         self.pstream = None        # server protocol.Stream
 
@@ -101,6 +102,15 @@ class Run:
                 self.op('S', '-')
             else:
                 self.op(('d:%d' if d == 'c2s' else 'D:%d') % it[1], '-')
+
+    def written(self, d, entries):
+        """a transport write carried these entries; frames that had been held back in the client's h2
+        buffer (reset_nowait while paused) reach the wire now: that is the model's CFlush"""
+        if d == 'c2s' and any(len(it) > 2 and 'held' in it[2] for it in entries):
+            self.op('F', '-')
+
+    def held_calls(self):
+        return sorted(it[1] for it in self.pend['c2s'] if len(it) > 2 and 'held' in it[2])
 
 
 def call_of_headers(headers):
@@ -182,8 +192,13 @@ def wrap_client(run, cproto):
             raise
         if st[c].in_cancel:
             run.op('x:%d' % c, '-')
-        # an RST written at context exit belongs to the X op (the model emits it there)
-        run.sent('c2s', ('R', c) if st[c].in_cancel else ('R', c, 'exit'))
+        # an RST written at context exit belongs to the X op (the model emits it there); when writing is
+        # paused reset_nowait leaves it in h2's buffer until the next write of any kind
+        if st[c].in_cancel:
+            run.sent('c2s', ('R', c))
+        else:
+            flags = {'exit'} | (set() if cproto.connection.write_ready.is_set() else {'held'})
+            run.sent('c2s', ('R', c, frozenset(flags)))
         return r
 
     def register(stream):
@@ -191,12 +206,14 @@ def wrap_client(run, cproto):
 
         def release():
             present = stream.id in proc.streams
-            rel()
             c = run.sid2c.get(stream.id)
             if present and c is not None and not st[c].exited:
+                # logged before the real release runs: release_stream may itself write (ack) and so
+                # flush an RST that reset_nowait had to leave in h2's buffer
                 st[c].exited = True
                 run.op('X:%d' % c, '-')
                 run.delivered('c2s', run.held.pop(c, []))
+            rel()
         return release
 
     ch2.send_headers, ch2.send_data, ch2.reset_stream = send_headers, send_data, reset_stream
@@ -234,6 +251,7 @@ def wrap_server(run, sproto):
         else:
             st[c].exit_trailers = 'nonok' if nonok else 'ok'
         st[c].s_end_sent = True
+        st[c].nonok_sent = st[c].nonok_sent or nonok
         run.sent('s2c', ('E', c))
         return r
 
@@ -295,7 +313,9 @@ class TLink(wire.Link):
     def _send(self, dst, data):
         self.bytes[id(dst)] += len(data)
         d = 'c2s' if dst is self.tb else 's2c'
-        self.loop.call_soon(self._deliver2, dst, data, d, self.run.take(d))
+        entries = self.run.take(d)
+        self.run.written(d, entries)
+        self.loop.call_soon(self._deliver2, dst, data, d, entries)
 
     def _deliver2(self, dst, data, d, entries):
         if dst.lost or dst.closing:
@@ -459,6 +479,11 @@ def snapshot(run, env, final=False):
                for c in range(run.n)],
         'final': final,
         't': env['loop'].time(),
+        'paused': not env['cproto'].connection.write_ready.is_set(),
+        # bytes waiting in the client's h2 send buffer (nothing else is ever left there between loop
+        # iterations: every other API call is followed by a write)
+        'buffered': len(getattr(ch2, '_data_to_send', b'')) > 0,
+        'held': run.held_calls(),
         'pending_tasks': [c for c in range(run.n) if st[c].task is not None and not st[c].task.done()],
         'released': [c for c in range(run.n) if st[c].released],
         'exited': [c for c in range(run.n) if st[c].exited],
@@ -470,12 +495,38 @@ def snapshot(run, env, final=False):
 
 # ---- the two set-ups ------------------------------------------------------------------------------
 
+def settings_payload(n, extra):
+    """one SETTINGS frame: MAX_CONCURRENT_STREAMS together with other settings (PRNG choice of the case)"""
+    d = {MCS: n}
+    for x in (extra or []):
+        if x[0] == 'iws':
+            d[SettingCodes.INITIAL_WINDOW_SIZE] = int(x[1])
+        elif x[0] == 'mfs':
+            d[SettingCodes.MAX_FRAME_SIZE] = int(x[1])
+        elif x[0] == 'hts':
+            d[SettingCodes.HEADER_TABLE_SIZE] = int(x[1])
+        elif x[0] == 'unknown':
+            d[int(x[1])] = int(x[2])
+    # INITIAL_WINDOW_SIZE first / last in the frame does not matter to h2; keep dict order as given
+    return d
+
+
+def client_pause(run, env, on):
+    tr = env['ctransport']
+    if on and not tr.paused:
+        run.op('P', '-')
+        tr.pause()
+    elif not on and tr.paused:
+        run.op('U', '-')
+        tr.resume()
+
+
 def timeline(case):
     acts = []
     for c, spec in enumerate(case['calls']):
         acts.append((float(spec['start']), 0, ('start', c)))
     for ev in case.get('events', []):
-        acts.append((float(ev['t']), 1, (ev['ev'], ev.get('n'), ev.get('c'))))
+        acts.append((float(ev['t']), 1, (ev['ev'], ev)))
     acts.sort(key=lambda a: (a[0], a[1]))
     return acts
 
@@ -505,8 +556,10 @@ def run_link(case):
         wrap_server(run, env['sproto'])
         run.maxc0 = env['ch2'].remote_settings.max_concurrent_streams
 
-        def announce(n):
-            env['sh2'].update_settings({MCS: n})
+        env['ctransport'] = env['link'].ta
+
+        def announce(n, extra=None):
+            env['sh2'].update_settings(settings_payload(n, extra))
             run.op('s:%d' % n, '-')
             run.sent('s2c', ('S', n))
             env['sproto'].connection.flush()
@@ -521,16 +574,26 @@ def run_link(case):
                 c = act[1]
                 run.st[c].task = loop.create_task(client_call(run, channel, c, calls[c]))
             elif act[0] == 'settings':
-                announce(act[1])
+                announce(act[1]['n'], act[1].get('extra'))
             elif act[0] == 'srvclose':
                 env['sproto'].handler.close()          # what Server.close() does for every connection
             elif act[0] == 'taskcancel':
-                tk = run.st[act[2]].task
+                tk = run.st[act[1]['c']].task
                 if tk is not None:
                     tk.cancel()
+            elif act[0] in ('pause', 'resume'):
+                client_pause(run, env, act[0] == 'pause')
+            elif act[0] == 'spause':
+                env['link'].tb.pause()                 # the server's transport: only delays its writes
+            elif act[0] == 'sresume':
+                env['link'].tb.resume()
             loop.run_quiet(0)
             check(run, snapshot(run, env))
-        r = loop.run_quiet(FINAL_SPAN)
+        loop.run_quiet(FINAL_SPAN / 2)
+        # back-pressure ends: both transports writable again, then run to quiescence
+        client_pause(run, env, False)
+        env['link'].tb.resume()
+        r = loop.run_quiet(FINAL_SPAN / 2)
         check(run, snapshot(run, env, final=True))
         run.quiet = r
         run.conn_closed = env['cproto'].connection.is_closing()
@@ -600,7 +663,9 @@ def run_client(case):
             # client -> peer delivery is synchronous; the RST of a context exit is written before the
             # release, the model emits it with the X op: report its arrival right after that op
             now = []
-            for it in run.take('c2s'):
+            entries = run.take('c2s')
+            run.written('c2s', entries)
+            for it in entries:
                 if len(it) == 3 and not run.st[it[1]].exited:
                     run.held.setdefault(it[1], []).append(it)
                 else:
@@ -622,9 +687,11 @@ def run_client(case):
                         loop.call_later(float(delay), peer_act, c, what)
         tr.on_write = on_write
 
-        def announce(n):
+        env['ctransport'] = tr
+
+        def announce(n, extra=None):
             run.op('s:%d' % n, '-')
-            peer.h2.update_settings({MCS: n})
+            peer.h2.update_settings(settings_payload(n, extra))
             flush([('S', n)])
 
         if case.get('limit0'):
@@ -637,14 +704,18 @@ def run_client(case):
                 c = act[1]
                 run.st[c].task = loop.create_task(client_call(run, channel, c, calls[c]))
             elif act[0] == 'settings':
-                announce(act[1])
+                announce(act[1]['n'], act[1].get('extra'))
             elif act[0] == 'taskcancel':
-                tk = run.st[act[2]].task
+                tk = run.st[act[1]['c']].task
                 if tk is not None:
                     tk.cancel()
+            elif act[0] in ('pause', 'resume'):
+                client_pause(run, env, act[0] == 'pause')
             loop.run_quiet(0)
             check(run, snapshot(run, env))
-        r = loop.run_quiet(FINAL_SPAN)
+        loop.run_quiet(FINAL_SPAN / 2)
+        client_pause(run, env, False)              # back-pressure ends, then run to quiescence
+        r = loop.run_quiet(FINAL_SPAN / 2)
         check(run, snapshot(run, env, final=True))
         run.quiet = r
         run.conn_closed = cproto.connection.is_closing()
@@ -693,9 +764,12 @@ def check(run, snap):
         ch, sh = snap['h2'][c][0], snap['h2'][c][1]
         if st[c].released and sh in ('o', 'r'):
             out.append(('stream-open-after-handler-exit', c))
+        if st[c].released and st[c].nonok_sent and sh == 'l':
+            out.append(('stream-half-open-after-error-status', c))
         if st[c].exited and ch not in ('c', 'i'):
             out.append(('client-stream-open-after-exit', c))
-        if st[c].exited and sh not in ('c', 'i'):
+        if st[c].exited and sh not in ('c', 'i') and not snap['paused']:
+            # (while writing is paused nothing can be told to the server: checked once writable again)
             out.append(('server-stream-open-after-client-exit', c))
     if snap['creg'] != len(snap['opened']):
         out.append(('client-registry-differs-from-running-calls', None))
@@ -703,7 +777,7 @@ def check(run, snap):
         running = [c for c in range(run.n) if st[c].accepted and not st[c].released]
         if snap['sreg'] != len(running):
             out.append(('server-registry-differs-from-running-handlers', None))
-    if snap['waiting'] and snap['out'] < snap['maxc']:
+    if snap['waiting'] and snap['out'] < snap['maxc'] and not snap['paused']:
         # legitimate only while a call whose stream is already closed has not left its context yet
         if not any(snap['h2'][c][0] == 'c' for c in snap['opened']):
             out.append(('waiter-blocked-with-free-slot', snap['waiting'][0]))
@@ -717,4 +791,5 @@ def check(run, snap):
             out.append(('leftover-at-quiescence', None))
     for kind, c in out:
         run.checks.append({'kind': kind, 'call': c, 't': snap['t'], 'final': snap['final'],
-                           'snap': {k: snap[k] for k in ('creg', 'sreg', 'out', 'in', 'waiting', 'opened', 'maxc', 'h2')}})
+                           'snap': {k: snap[k] for k in ('creg', 'sreg', 'out', 'in', 'waiting', 'opened', 'maxc', 'h2',
+                                                         'paused', 'buffered', 'held')}})
